@@ -4,6 +4,8 @@ CONSTANTS
   CrashPoints = FALSE
   RollFaults = TRUE
   RollKills = TRUE
+  RoomFaults = TRUE
+  RollDesign = "rename"
   MaxCount = 3
   Limit = 4
   MaxWrite = 6
@@ -17,6 +19,8 @@ CONSTANTS
   FlushFaults = TRUE
   PreTmp = 3
   MaxDumps = 3
+  ListFaults = TRUE
+  DumpDesign = "cleanup-first"
   PreDumps = 5
   MaxIds = 1000
 INVARIANTS Emit LogCountBound LogSizeBound EvCountBound EvStoppedQueueEmpty DumpCountBound
